@@ -10,6 +10,8 @@ the explicit decidable hypotheses; `Cfg` (what `factory.load` tells the readers 
 -/
 import EzdxfVerif.Lemmas.Readers
 import EzdxfVerif.Lemmas.ReadersWrite
+import EzdxfVerif.Lemmas.ReadersCompose
+import EzdxfVerif.Model.ReadersLoad
 import EzdxfVerif.Lemmas.ReadersDetect
 import EzdxfVerif.Lemmas.ReadersLines
 import EzdxfVerif.Lemmas.ReadersRepair
@@ -517,6 +519,62 @@ theorem recover_version_differs :
     (dxfInfo ReaderTables.codepageTable (headerFile [⟨"$ACADVER", [⟨1, "AC10321"⟩]⟩] [tEOF])).version = "AC10321" := by
   decide
 
+/-- a written document, seen from its header: HEADER with the variables, then plain sections -/
+private theorem written_as_header_file (cfg : Cfg) (m : Nat) (d : DocW) (vars : List HVar)
+    (h : DocOK cfg m d = true) (hv : d.header = renderVars vars) :
+    ∃ tailSecs, writeDoc d = headerFile vars (render tailSecs) ∧ SecsPlain tailSecs := by
+  have hf := docFacts cfg m d h
+  have hexp : ∀ e ∈ d.msp ++ d.psp, e.exportable = true := fun e he => (wEnt_facts cfg m e (hf.ents e he)).2.2.1
+  have hsecs := secsOK_of cfg m _ hf.cfgok hf.secs
+  -- the sections behind HEADER
+  let tailSecs : List Section :=
+    ((if d.r12 then [] else [⟨"CLASSES", d.classes⟩]) ++ [⟨"TABLES", d.tables⟩, ⟨"BLOCKS", d.blocks⟩])
+      ++ ⟨"ENTITIES", flatEnts (d.msp ++ d.psp)⟩ :: d.post
+  have hfile : writeDoc d = headerFile vars (render tailSecs) := by
+    rw [writeDoc_eq d hexp, fileOf]
+    simp only [DocW.pre, List.cons_append, render, List.flatMap_cons, renderSec, hv, headerFile, tailSecs]
+    simp [List.append_assoc]
+  have hplain : SecsPlain tailSecs := by
+    intro s hs
+    simp only [tailSecs, List.mem_append, List.mem_cons] at hs
+    rcases hs with (hs | hs) | rfl | hs
+    · have hmem : s ∈ d.pre ++ d.post := by
+        simp only [DocW.pre, List.mem_append, List.mem_cons]; exact Or.inl (Or.inr (Or.inl hs))
+      refine ⟨?_, hsecs.body s hmem⟩
+      cases hr : d.r12 <;> simp [hr] at hs <;> subst hs <;> simp
+    · have hmem : s ∈ d.pre ++ d.post := by
+        simp only [DocW.pre, List.mem_append, List.mem_cons]; exact Or.inl (Or.inr (Or.inr hs))
+      refine ⟨?_, hsecs.body s hmem⟩
+      simp only [List.mem_cons, List.not_mem_nil, or_false] at hs
+      rcases hs with rfl | rfl <;> simp
+    · exact ⟨by simp, bodyOK_flatEnts _ (docEnts_groups cfg m d hf)⟩
+    · have hmem : s ∈ d.pre ++ d.post := by simp [hs]
+      refine ⟨?_, hsecs.body s hmem⟩
+      simp only [DocW.post, List.mem_append] at hs
+      rcases hs with hs | hs | hs
+      · cases hr : d.r12 <;> simp [hr] at hs
+        subst hs; simp
+      · cases ha : d.acds with
+        | none => simp [ha] at hs
+        | some a => simp [ha] at hs; subst hs; simp
+      · exact hf.stored s hs
+  exact ⟨tailSecs, hfile, hplain⟩
+
+/-- `recover_version_agrees` without its two global hypotheses (`asciiLoad f = f`, `compileB cfg f = f`), for the files
+    `Drawing.write` produces: on every locally well-formed document whose HEADER holds `$ACADVER` at most once as an
+    unpadded `ACnnnn`, recover's own version decision is the version every other reader decides -/
+theorem recover_version_on_written_file (tbl : List (String × String)) (cfg : Cfg) (m : Nat) (d : DocW) (vars : List HVar)
+    (h : DocOK cfg m d = true) (hv : d.header = renderVars vars)
+    (hok : ∀ v ∈ vars, hvarOK v = true ∧ verVarOK cfg.strip v = true)
+    (hu : (vars.filter (fun v => decide (v.name = "$ACADVER"))).length ≤ 1) :
+    recoverVersion cfg (writeDoc d) = (specInfo tbl vars).version := by
+  obtain ⟨tailSecs, hfile, hplain⟩ := written_as_header_file cfg m d vars h hv
+  obtain ⟨secs, pre, es, post, b⟩ := wf_bridge cfg m _ (writeDoc_wf cfg m d h)
+  have hA := b.ascii
+  have hC := b.compB
+  rw [hfile] at hA hC ⊢
+  exact recover_version_agrees tbl cfg vars tailSecs hok hu hplain hA hC
+
 /-- where the readers genuinely differ (files no ezdxf writer produces): (1) a R2018 header WITHOUT `$DWGCODEPAGE`:
     recover decodes as cp1252, every other reader as utf-8; (2) six counted variables (a duplicate) in front of
     `$DWGCODEPAGE`: `dxf_info` stops after five and keeps cp1252, `fileindex.load` reads on; (3) a comment between the
@@ -884,6 +942,158 @@ theorem gen_r12_iterables_once :
        ("add_polyline_2d", "points"), ("add_polymesh", "vertices"), ("add_solid", "vertices")] := by
   decide
 
+/-! ## final round: one composition for every writer of the shape `fileOf pre es post` -/
+
+/-- the general composition (Drawing.write, r12export, r12writer, iterdxf exporter are instances): sections and entities
+    that are well-formed ONE BY ONE (`PartsOK`: the local conditions of `fileOf_wf`) make a file on which all five
+    readers return the entity list, filtered by type and paperspace flag - no global hypothesis on the file -/
+theorem parts_read_agree (cfg : Cfg) (m : Nat) (hm : 2 ≤ m) (hr : ReqLinked cfg) (pre post : List Section) (es : List Ent)
+    (h : PartsOK cfg m pre post es) :
+    let f := fileOf pre es post
+    let expected := es.filter (fun e => cfg.req (dxftype e.main) && !cfg.psp e.main)
+    FileWF' cfg m f = true ∧
+    iterModelspace cfg f = .ok (expected.filter cfg.truthy) ∧
+    singlePass cfg true f = .ok (expected.filter cfg.truthy) ∧
+    indexModelspace cfg m f = .ok (expected.filter cfg.truthy) ∧
+    onlyReq cfg (strictModelspace cfg f) = .ok expected ∧
+    onlyReq cfg (recoverModelspace cfg f) = .ok expected := by
+  intro f expected
+  have hwf := parts_wf cfg m pre post es h
+  have hspec : Spec.ofFile cfg f = expected := spec_fileOf cfg m pre post es h
+  refine ⟨hwf, ?_, ?_, ?_, ?_, ?_⟩
+  · rw [iter_agrees cfg m hr _ hwf, hspec]
+  · rw [single_pass_characterised cfg m hr true _ hwf, hspec]; rfl
+  · rw [index_agrees cfg m hm hr _ hwf, hspec]
+  · rw [strict_agrees cfg m _ hwf, hspec]
+  · rw [recover_agrees cfg m _ hwf, hspec]
+
+/-- the iterdxf exporter composed with the readers (`export_structure` only gave the tag structure): for every copied
+    prefix, every list of written entities that are well-formed one by one, and the copied OBJECTS section, all five
+    readers return exactly the written entities from the exported file -/
+theorem export_read_agree (cfg : Cfg) (m : Nat) (hm : 2 ≤ m) (hr : ReqLinked cfg) (pre : List Section) (written : List Ent)
+    (objects : Option Section) (hcfg : cfgOK cfg = true) (hsecs : SecsOK cfg m (pre ++ objects.toList))
+    (hw : ∀ e ∈ written, wEntOK cfg m e = true)
+    (hobj : "AC1009" < verFold (verFold "AC1009" pre) objects.toList → ∃ s ∈ pre ++ objects.toList, s.name = "OBJECTS") :
+    let f := exportFile false pre written objects
+    let expected := written.filter (fun e => cfg.req (dxftype e.main) && !cfg.psp e.main)
+    FileWF' cfg m f = true ∧
+    iterModelspace cfg f = .ok (expected.filter cfg.truthy) ∧
+    singlePass cfg true f = .ok (expected.filter cfg.truthy) ∧
+    indexModelspace cfg m f = .ok (expected.filter cfg.truthy) ∧
+    onlyReq cfg (strictModelspace cfg f) = .ok expected ∧
+    onlyReq cfg (recoverModelspace cfg f) = .ok expected := by
+  obtain ⟨h1, h2, h3, h4, h5⟩ := parts_of_wEnts cfg m written hw
+  have hf : exportFile false pre written objects = fileOf pre written objects.toList := export_structure pre written objects h5
+  simp only [hf]
+  exact parts_read_agree cfg m hm hr pre objects.toList written ⟨hcfg, hsecs, h1, h2, h3, h4, hobj⟩
+
+/-- the fast R12 writer composed with ALL readers (`r12_iter` covered iterdxf.modelspace only and assumed
+    `asciiLoad f = f` and `compile cfg f = f` of the whole file): for every call sequence whose tags are writer tags
+    (`wTagOK`, one tag at a time) all five readers return the expected entities - POLYLINE with one VERTEX per point and
+    SEQEND - in call order -/
+theorem r12_read_agree (cfg : Cfg) (m : Nat) (hm : 2 ≤ m) (hr : ReqLinked cfg) (preface : List Section) (calls : List R12Call)
+    (hc : ∀ c ∈ calls, r12CallOK cfg c = true) (hcfg : cfgOK cfg = true) (hsecs : SecsOK cfg m preface)
+    (hnh : ∀ s ∈ preface, s.name ≠ "HEADER")
+    (ht : ∀ t ∈ flatEnts (calls.map R12Call.expected), wTagOK cfg m t = true)
+    (hpsp : ∀ g ∈ (calls.map R12Call.expected).flatMap Ent.groups, cfg.pspS g = cfg.psp g) :
+    let f := r12File preface calls
+    let expected := (calls.map R12Call.expected).filter (fun e => cfg.req (dxftype e.main) && !cfg.psp e.main)
+    FileWF' cfg m f = true ∧
+    iterModelspace cfg f = .ok (expected.filter cfg.truthy) ∧
+    singlePass cfg true f = .ok (expected.filter cfg.truthy) ∧
+    indexModelspace cfg m f = .ok (expected.filter cfg.truthy) ∧
+    onlyReq cfg (strictModelspace cfg f) = .ok expected ∧
+    onlyReq cfg (recoverModelspace cfg f) = .ok expected := by
+  obtain ⟨hfile, _, hgroups⟩ := r12_structure cfg preface calls hc
+  have hclosed : EntsClosed cfg (calls.map R12Call.expected) := by
+    intro e he
+    obtain ⟨c, hcm, rfl⟩ := List.mem_map.mp he
+    have h1 := hc c hcm
+    cases c with
+    | simple ty a =>
+      simp only [r12CallOK, Bool.and_eq_true, Option.isNone_iff_eq_none] at h1
+      exact ⟨by simp [R12Call.expected, entWF, Ent.single, h1.2], by simp [R12Call.expected, Ent.isOpen, Ent.single, h1.2]⟩
+    | polyline a vs =>
+      have he' : expects cfg (⟨0, "POLYLINE"⟩ :: a) = some "VERTEX" := by simp [expects, dxftype]
+      exact ⟨by simp [R12Call.expected, entWF, he', hasType], by simp [R12Call.expected, Ent.isOpen]⟩
+  have hver : verFold (verFold "AC1009" preface) [] = "AC1009" := by
+    simp only [verFold, List.foldl_nil]
+    exact verFold_noheader "AC1009" preface hnh
+  simp only [hfile]
+  exact parts_read_agree cfg m hm hr preface [] (calls.map R12Call.expected)
+    ⟨hcfg, by simpa using hsecs, hclosed, hgroups, ht, hpsp, by rw [hver]; intro h; exact absurd h (by decide)⟩
+
+/-! ## final round: records of the generic export path satisfy the writer's local predicate -/
+
+/-- the only structure tag `DXFEntity.export_base_class` writes is the first one (regenerated probe: an entity with app
+    data, extension dictionary and reactors in DXF R2000, and DXF R12 with handles) -/
+theorem gen_base_class_codes :
+    ReaderTables.baseClassCodes2000.head? = some 0 ∧ ReaderTables.baseClassCodes2000.tail.all (· != 0) = true ∧
+    ReaderTables.baseClassCodesR12.head? = some 0 ∧ ReaderTables.baseClassCodesR12.tail.all (· != 0) = true := by
+  decide
+
+private theorem generic_group_facts (cfg : Cfg) (m : Nat) (g : GenericRecord) (h : genericOK cfg m g = true) :
+    (groupOK g.group && dxftype g.group != "SECTION" && dxftype g.group != "ENDSEC" && dxftype g.group != "EOF") = true ∧
+    (∀ t ∈ g.group, wTagOK cfg m t = true) ∧ cfg.pspS g.group = cfg.psp g.group := by
+  simp only [genericOK, Bool.and_eq_true, bne_iff_ne, beq_iff_eq, List.all_eq_true] at h
+  obtain ⟨⟨⟨⟨⟨⟨h1, h2⟩, h3⟩, h4⟩, h5⟩, h6⟩, h7⟩ := h
+  have hattr : ∀ t ∈ g.base ++ g.body ++ g.xdata, t.code ≠ 0 ∧ t.code ≤ m ∧ t.code ≠ 999 := by
+    intro t ht
+    have := h6 t ht
+    simp only [attrTagOK, Bool.and_eq_true, bne_iff_ne, decide_eq_true_eq] at this
+    exact ⟨this.1.1, this.1.2, this.2⟩
+  refine ⟨?_, ?_, h7⟩
+  · simp only [GenericRecord.group, groupOK, dxftype, Bool.and_eq_true, beq_self_eq_true, true_and, List.all_eq_true,
+      bne_iff_ne]
+    exact ⟨⟨⟨fun t ht => by simpa [nz] using (hattr t ht).1, h1⟩, h2⟩, h3⟩
+  · intro t ht
+    simp only [GenericRecord.group, List.mem_cons] at ht
+    rcases ht with rfl | ht
+    · simp [wTagOK, h4, h5]
+    · obtain ⟨a, b, c⟩ := hattr t ht
+      simp [wTagOK, a, b, c]
+
+/-- the entity part of `DocOK` reduced to conditions on single attribute tags: an entity written by the generic export path
+    (`export_base_class`, `export_entity`, `export_xdata` behind the one structure tag) whose type starts no linked
+    structure satisfies `wEntOK` as soon as each of its tags is an attribute tag (`attrTagOK`: code ≠ 0, ≤ m, ≠ 999) and
+    its type name is a proper one -/
+theorem generic_record_ok (cfg : Cfg) (m : Nat) (g : GenericRecord) (h : genericOK cfg m g = true)
+    (hexp : expects cfg g.group = none) : wEntOK cfg m (Ent.single g.group) = true := by
+  obtain ⟨h1, h2, h3⟩ := generic_group_facts cfg m g h
+  have hne : ¬(dxftype g.group = "INSERT" ∧ True ∧ False) := by simp
+  simp only [wEntOK, Ent.single, entWF, hexp, Ent.isOpen, Ent.exportable, Ent.groups, List.isEmpty_nil, Option.isNone_none,
+    Option.isSome_none, Bool.and_true, Bool.and_false, Bool.not_false, Option.toList_none, List.append_nil, List.all_cons,
+    List.all_nil, Bool.true_and, Bool.and_eq_true, List.all_eq_true, beq_iff_eq]
+  exact ⟨⟨by simpa using h1, h2⟩, h3⟩
+
+/-- ... and a POLYLINE / INSERT-with-attribs written with its sub-entities and SEQEND (`Polyline.export_dxf`,
+    `Insert.export_dxf`: main record, one generic record per VERTEX / ATTRIB, the SEQEND record) satisfies `wEntOK` under
+    the same per-tag conditions -/
+theorem generic_linked_ok (cfg : Cfg) (m : Nat) (main : GenericRecord) (subs : List GenericRecord) (seqend : GenericRecord)
+    (exp : String) (hm : genericOK cfg m main = true) (hs : ∀ s ∈ subs, genericOK cfg m s = true ∧ s.type = exp)
+    (hq : genericOK cfg m seqend = true) (hqt : seqend.type = "SEQEND")
+    (hexp : expects cfg main.group = some exp) (hsub : subs ≠ [] ∨ main.type ≠ "INSERT") :
+    wEntOK cfg m ⟨main.group, subs.map GenericRecord.group, some seqend.group⟩ = true := by
+  have hM := generic_group_facts cfg m main hm
+  have hQ := generic_group_facts cfg m seqend hq
+  have hS : ∀ s ∈ subs, _ := fun s hs' => generic_group_facts cfg m s (hs s hs').1
+  simp only [wEntOK, entWF, hexp, Ent.isOpen, Ent.exportable, Ent.groups, Bool.and_eq_true, List.all_eq_true,
+    Bool.not_eq_true', beq_iff_eq, Option.toList_some, List.mem_cons, List.mem_append, List.mem_map, List.not_mem_nil,
+    or_false, Option.isSome_some, Option.isNone_some, Bool.and_false]
+  refine ⟨⟨⟨⟨?_, ?_⟩, trivial⟩, ?_⟩, ?_⟩
+  · rintro g ⟨s, hs', rfl⟩
+    simp [hasType, GenericRecord.group, (hs s hs').2]
+  · simp [hasType, GenericRecord.group, hqt]
+  · rcases hsub with h | h
+    · cases subs with
+      | nil => exact absurd rfl h
+      | cons a r => simp
+    · simp [dxftype, GenericRecord.group, h]
+  · rintro g (rfl | ⟨s, hs', rfl⟩ | rfl)
+    · exact ⟨⟨by simpa using hM.1, hM.2.1⟩, hM.2.2⟩
+    · exact ⟨⟨by simpa using (hS s hs').1, (hS s hs').2.1⟩, (hS s hs').2.2⟩
+    · exact ⟨⟨by simpa using hQ.1, hQ.2.1⟩, hQ.2.2⟩
+
 /-! ## JSON tags -/
 
 private theorem asciiLoad_prefix (a b : List Tag) (h : ∀ t ∈ a, t.code ≠ 999 ∧ t ≠ tEOF) :
@@ -934,6 +1144,31 @@ theorem json_roundtrip (isPt : Nat → Bool) (compact : Bool) (ws : List WTag) (
       | false =>
         simp only [jsonWrite, Bool.false_eq_true, if_false]
         rw [jsonLoad_singles isPt _ _ hclean, hr]
+
+/-! ## final round: the JSON format composed with the reader theorems -/
+
+/-- `Drawing.read` is `Drawing.load` behind `ascii_tags_loader` (both readers share the back end `loadModelspace`) -/
+theorem strict_is_load (cfg : Cfg) (f : List Tag) : strictModelspace cfg f = loadModelspace cfg (asciiLoad f) := rfl
+
+/-- `load_json_tags(export_json_tags(...))` delivers the modelspace `ezdxf.read` delivers for the ASCII rendering of the same
+    compiled tags - for EVERY list of compiled tags, compact and verbose (composition of `json_roundtrip` with the
+    common back end) -/
+theorem json_read_agrees (cfg : Cfg) (isPt : Nat → Bool) (compact : Bool) (ws : List WTag)
+    (h : ∀ w ∈ ws, wtagOK isPt w = true) :
+    jsonModelspace cfg isPt (jsonWrite compact ws) = strictModelspace cfg (asciiWrite ws) := by
+  unfold jsonModelspace
+  rw [json_roundtrip isPt compact ws h]
+  rfl
+
+/-- `write_then_read_agree` for the JSON format: when the compiled tags a document hands to the tag writers render (ASCII)
+    to the stream `writeDoc d` of a locally well-formed document, `load_json_tags` of the JSON rendering returns the same
+    entities as every ASCII reader: the written entity spaces minus paperspace, restricted to the requested types -/
+theorem write_then_read_agree_json (cfg : Cfg) (m : Nat) (d : DocW) (hd : DocOK cfg m d = true)
+    (isPt : Nat → Bool) (compact : Bool) (ws : List WTag) (h : ∀ w ∈ ws, wtagOK isPt w = true)
+    (hws : asciiWrite ws = writeDoc d) :
+    onlyReq cfg (jsonModelspace cfg isPt (jsonWrite compact ws)) =
+      .ok ((d.msp ++ d.psp).filter (fun e => cfg.req (dxftype e.main) && !cfg.psp e.main)) := by
+  rw [json_read_agrees cfg isPt compact ws h, hws, strict_agrees cfg m _ (writeDoc_wf cfg m d hd), spec_writeDoc cfg m d hd]
 
 /-! ## the decidable well-formedness predicate is met by rendered files (non-vacuity) -/
 
@@ -1055,6 +1290,21 @@ example : GroupCanon ReaderTables.coordinateFixing
 #guard tagReorderLayer ReaderTables.coordinateFixing [⟨0, "LINE"⟩, ⟨10, "1"⟩] == []      -- never released without a next structure tag
 #guard sampleVars.all (verVarOK id) && isAcVersion "AC1018" && !isAcVersion "AC101" && !isAcVersion "ac1018"
 #guard recoverVersion cfgS (headerFile sampleVars (render [⟨"ENTITIES", []⟩])) == "AC1018"
+-- final round: the general composition is not vacuous (exporter output, r12writer output, JSON path)
+#guard (exportFile false sampleDoc.pre sampleDoc.msp (some ⟨"OBJECTS", sampleDoc.objects⟩)) == fileOf sampleDoc.pre sampleDoc.msp [⟨"OBJECTS", sampleDoc.objects⟩]
+#guard sampleDoc.msp.all (wEntOK cfgP 1071)
+#guard FileWF' cfgP 1071 (exportFile false sampleDoc.pre sampleDoc.msp (some ⟨"OBJECTS", sampleDoc.objects⟩))
+#guard FileWF' cfgS 1071 (r12File [] [.polyline [⟨8, "0"⟩, ⟨66, "1"⟩] [[⟨10, "1.0"⟩], [⟨10, "2.0"⟩]], .simple "LINE" [⟨8, "0"⟩]])
+#guard onlyReq cfgS (recoverModelspace cfgS (r12File [] [.simple "LINE" [⟨8, "0"⟩]])) == .ok [Ent.single [⟨0, "LINE"⟩, ⟨8, "0"⟩]]
+#guard jsonModelspace cfgS (fun c => c == 10) (jsonWrite true ((oneLine.map fun t => WTag.single t.code t.val))) == strictModelspace cfgS oneLine
+#guard recoverVersion cfgP (writeDoc sampleDoc) == "AC1015"
+-- generic export path: a LINE record, and a POLYLINE with a vertex and SEQEND built from generic records
+def gLine : GenericRecord := ⟨"LINE", [⟨5, "A"⟩, ⟨330, "1F"⟩], [⟨100, "AcDbEntity"⟩, ⟨8, "0"⟩, ⟨10, "0.0"⟩], [⟨1001, "APP"⟩]⟩
+#guard genericOK cfgP 1071 gLine && (expects cfgP gLine.group).isNone && wEntOK cfgP 1071 (Ent.single gLine.group)
+#guard genericOK cfgP 1071 ⟨"POLYLINE", [⟨5, "B"⟩], [⟨66, "1"⟩], []⟩ && genericOK cfgP 1071 ⟨"VERTEX", [⟨5, "C"⟩], [], []⟩
+#guard wEntOK cfgP 1071 ⟨(⟨"POLYLINE", [⟨5, "B"⟩], [⟨66, "1"⟩], []⟩ : GenericRecord).group,
+  [(⟨"VERTEX", [⟨5, "C"⟩], [], []⟩ : GenericRecord).group], some (⟨"SEQEND", [⟨5, "D"⟩], [], []⟩ : GenericRecord).group⟩
+#guard !genericOK cfgP 1071 ⟨"LINE", [⟨0, "X"⟩], [], []⟩ && !genericOK cfgP 1071 ⟨"EOF", [], [], []⟩
 #guard !hvarOK ⟨"$ACADVER", []⟩ && !hvarOK ⟨"$X", [⟨10, "1"⟩]⟩ && !hvarOK ⟨"$Y", [⟨1, "a"⟩, ⟨9, "$Z"⟩]⟩                                    -- $ACADVER newer than the writer's switch
 
 end EzdxfVerif.Props.C08
